@@ -42,15 +42,16 @@ SPEC = {
     "sym": SYM_F + " | stacks: " + SYM_S,
     "bounds": "filter expressions: every not/and/or tree of depth <= 2 over the generic truthful leaf (37 trees, exhaustive) + every "
               "concrete leaf + not/and/or over concrete leaves (all pairs of {LevelFilter, FilterFn+hint, DynFilterFn+callsite filter, Targets}) "
-              "+ 16 depth-2 trees over concrete leaves; Targets with <= 2 directives over the targets {a, b} plus optional default; "
+              "+ 16 depth-2 trees over concrete leaves; Targets with one directive over the one-byte targets {a, b}; "
               "stacks: 1..3 elements of {generic layer, None, vec![layer], LevelFilter} (3-element stacks over {layer, None}) in every "
-              "Layered nesting, on a light root collector with its own symbolic truthful summary; metadata: 5 levels x span/event "
+              "Layered nesting, plus each real leaf (FilterFn, DynFilterFn, Targets, Option<LevelFilter>, reload(LevelFilter), Box<dyn>) "
+              "as a global-filter layer alone and in 8 two-element stacks, on a light root collector with its own symbolic truthful summary; metadata: 5 levels x span/event "
               "(x 2 targets)",
     "outside": "EnvFilter (regex-built, cannot be encoded; the clause 'TRACE hint when value matchers exist' is not claimed); "
                "per-subscriber-filter stacks (Filtered needs the Registry for FilterId registration and FilterState::take_interest; "
                "the has_subscriber_filter / inner_is_registry branches of pick_interest and pick_level_hint are therefore not "
                "reached — C07 covers Filtered over the Registry); field-set dependent filters; expression depth > 2 over concrete "
-               "leaves; Targets beyond 2 directives / 1-byte targets (C11); Vec of >= 2 elements inside larger stacks (unsound by "
+               "leaves; Targets with >= 2 directives or a default level (measured: undecided after 540 s under the 10 GB cap; Targets' matching semantics is C11's subject); Vec of >= 2 elements inside larger stacks (unsound by "
                "finding vec_interest_highest, isolated in its own harness); event_enabled (a per-event decision, not a static summary)",
     "stubs": ["std::rt::thread_cleanup -> no-op", "core::fmt::write -> Ok(()) (panic / debug_assert text only)",
               "once_cell / sharded-slab / thread_local shims linked, no Registry constructed"],
